@@ -12,4 +12,8 @@ go build -tags verif -o "$tmp/driver" ./cmd/driver || exit 2
 go build -tags verif -o "$tmp/worker" ./cmd/worker || exit 2
 go build -race -tags verif -o "$tmp/worker-race" ./cmd/worker || exit 2
 go1.26.8 test -c -race -tags verif -o "$tmp/workerb.test" ./cmd/workerb || exit 2
+go run ./cmd/instrument /repo "$tmp/repo-inst" >/dev/null || exit 2
+sed "s#=> /repo#=> $tmp/repo-inst#" go.mod > "$tmp/auto.mod" && cp go.sum "$tmp/auto.sum"
+go build -modfile="$tmp/auto.mod" -race -tags "verif autoyield" -o "$tmp/worker-race-auto" ./cmd/worker || exit 2
+go1.26.8 test -modfile="$tmp/auto.mod" -c -race -tags "verif autoyield" -o "$tmp/workerb-auto.test" ./cmd/workerb || exit 2
 echo "setup ok"
